@@ -1456,6 +1456,100 @@ def check_discarded_lines(chk, unit, rule="P7"):
     return n
 
 
+def check_stream_leaks(chk, prog, unit, rule="P9"):
+    """A stream the unit opens itself (fopen / fdopen / popen into a local) is, on every path on which it did open, closed,
+    returned, stored or handed to a function of the library (the file stack takes it over) before the function returns:
+    a refusal path that returns without closing it leaks one descriptor per refused file, and a parser that is fed enough
+    refused files can no longer open the valid ones."""
+    OPENERS = {"fopen": "fclose", "fdopen": "fclose", "popen": "pclose", "opendir": "closedir"}
+    n = 0
+    for f in unit.functions.values():
+        if f.body is None or f.cfg is None:
+            continue
+        opened = {}
+        for x in walk(f.body):
+            pairs = []
+            if x.get("k") == "assign" and x.get("op") == "=":
+                l = X.strip(x["ch"][0])
+                if l is not None and l.get("k") == "ref" and l.get("rk") == "local":
+                    pairs.append((l["d"], x["ch"][1], x))
+            if x.get("k") == "decl":
+                for dcl in x.get("decls", ()):
+                    if dcl.get("init") is not None:
+                        pairs.append((dcl["d"], dcl["init"], x))
+            for d, rhs, node in pairs:
+                r = X.strip(rhs)
+                if r is not None and r.get("k") == "call" and X.callee_name(r) in OPENERS:
+                    opened.setdefault(d, []).append((node, X.callee_name(r)))
+        if not opened:
+            continue
+        cfg = nullness.prepared_cfg(f, NORETURN)
+        leaks = []
+
+        def holds(e, d):
+            s_ = X.strip(e)
+            return s_ is not None and s_.get("k") == "ref" and s_.get("d") == d
+
+        def transfer(state, x, blk):
+            k = x.get("k")
+            st = state
+            if k == "assign" and x.get("op") == "=":
+                l = X.strip(x["ch"][0])
+                r = X.strip(x["ch"][1])
+                if l is not None and l.get("k") == "ref" and l.get("d") in opened:
+                    st = frozenset(y for y in st if y != ("open", l["d"]))
+                    if r is not None and r.get("k") == "call" and X.callee_name(r) in OPENERS:
+                        st = st | {("open", l["d"])}
+                    return st
+                for d in opened:
+                    if holds(x["ch"][1], d) and not (l is not None and l.get("k") == "ref" and l.get("rk") == "local"):
+                        st = frozenset(y for y in st if y != ("open", d))       # stored somewhere that outlives the function
+                return st
+            if k == "decl":
+                for dcl in x.get("decls", ()):
+                    if dcl["d"] in opened and dcl.get("init") is not None:
+                        r = X.strip(dcl["init"])
+                        if r is not None and r.get("k") == "call" and X.callee_name(r) in OPENERS:
+                            st = st | {("open", dcl["d"])}
+                return st
+            if k == "call":
+                cn = X.callee_name(x) or ""
+                for a in x["ch"][1:]:
+                    for d in opened:
+                        if holds(a, d):
+                            if cn in OPENERS.values() or (cn not in own.NONESCAPE_LIBC and cn not in ("fileno", "feof", "ferror", "fgetc", "getc", "ungetc", "fseek", "ftell", "rewind", "fflush", "fscanf", "fprintf", "setvbuf", "clearerr", "fputc", "readdir")):
+                                st = frozenset(y for y in st if y != ("open", d))   # closed, or taken over by the callee
+                return st
+            return st
+
+        def refine(state, cond, truth, blk):
+            if isinstance(truth, tuple):
+                return state
+            st = state
+            for fct in X.implied(cond, truth):
+                if fct[0] == "null":
+                    for d in opened:
+                        if fct[1] == "d%d" % d:
+                            st = frozenset(y for y in st if y != ("open", d))      # the open failed: nothing to close
+            return st
+
+        def visit(state, x, blk):
+            if x.get("k") == "return":
+                for d in opened:
+                    if ("open", d) in state and not (x.get("val") is not None and any(y.get("k") == "ref" and y.get("d") == d for y in walk(x["val"]))):
+                        leaks.append((x, d))
+        flow.forward(cfg, frozenset(), transfer, refine=refine, join=lambda a, b: a | b, visit=visit)
+        for d, sites in sorted(opened.items()):
+            n += 1
+            mine = [l_ for l_ in leaks if l_[1] == d]
+            chk.ob(rule, f.name, "stream-closed:%s" % (f.vardecls.get(d) or {}).get("n", "?"), not mine, loc=f.loc(mine[0][0]) if mine else f.loc(sites[0][0]),
+                   detail="%s returns at %s with the stream it opened into `%s` (%s) still open and not handed on: one descriptor is lost "
+                          "per call on that path, and once the process runs out of descriptors files that are fine can no longer be opened" % (
+                              f.name, f.loc(mine[0][0]) if mine else "?", (f.vardecls.get(d) or {}).get("n", "?"), sites[0][1]),
+                   proof="on every path on which the open succeeded the stream is closed, returned, stored or handed to the library before the return")
+    return n
+
+
 def check_closed_stream_replaced(chk, unit, table="fstate", idx_global="fstate_idx", rule="P8"):
     """A stream of the file stack that has been closed is not left in the stack: on every path from `fclose(fstate[..].fp)` to a
     return of the function, the entry's `fp` is given another stream or the entry is popped.  Otherwise the line loop reads
